@@ -44,10 +44,11 @@ example : (fork { Proc.init with pending := SigSet.insert SigSet.empty .USR1 }).
 
 /-- ★ (1) A signal generated while it is blocked becomes pending and has no other effect: nothing is
     caught, the process keeps running, mask and dispositions are unchanged. -/
-theorem blocked_signal_becomes_pending (p : Proc) (s : Sig) (ha : p.alive = true) (hm : p.mask s = true) :
+theorem blocked_signal_becomes_pending (p : Proc) (s : Sig) (ha : p.alive = true) (hm : p.mask s = true)
+    (hk : s ≠ .KILL) :
     (generate p s).pending s = true ∧ (generate p s).caught = p.caught ∧
     (generate p s).status = p.status ∧ (generate p s).mask = p.mask ∧ (generate p s).disp = p.disp := by
-  simp [generate, ha, hm, SigSet.insert]
+  simp [generate, ha, hm, hk, SigSet.insert]
 
 /-- the steps that neither unblock `s` nor change its disposition -/
 inductive Quiet (s : Sig) : Proc → Proc → Prop where
@@ -93,6 +94,8 @@ theorem blocked_signal_stays_pending_until_unblocked (s : Sig) (p q : Proc)
     split
     · exact ⟨hm, hp⟩
     · split
+      · exact ⟨hm, hp⟩
+      split
       · refine ⟨hm, ?_⟩
         simp [SigSet.insert, hp]
       · rename_i hmt
